@@ -27,7 +27,7 @@ def sd(d):
 
 class Row:
     def __init__(self, name, direction, a_ref, m_ref, single, batch=None, cls='B', out='q', frames=('NED',),
-                 uses_mag=True, seeded=False, tilt_only=False, note='', one_sample=True):
+                 uses_mag=True, seeded=False, tilt_only=False, note='', one_sample=True, reused=None):
         self.name = name
         self.direction = direction          # 'inv' | 'fwd'
         self.a_ref = a_ref                  # f(frame) -> 3-vector
@@ -42,6 +42,9 @@ class Row:
         self.tilt_only = tilt_only
         self.note = note
         self.one_sample = one_sample      # the batch entry point also takes one 1-D sample and returns one attitude
+        # f(acc, mag, frame, dip, acc0, mag0, frame0, dip0) -> attitude from an object that has already estimated (acc0, mag0) under
+        # the references of (frame0, dip0) and whose references were then re-assigned the documented way; None when undocumented
+        self.reused = reused
 
 
 def _Z(sign):
@@ -106,11 +109,19 @@ def build_rows():
 
         def batch(ACC, MAG, frame, dip):
             return TRIAD(A(ACC), A(MAG), v1=A(_zf(1, -1)(frame)), v2=A(m_x_plus(frame, dip)), frame=frame, representation=rep).A
-        return single, batch
-    s, b = triad('rotmat')
-    add('TRIAD[rotmat]', 'fwd', _zf(1, -1), m_x_plus, s, b, cls='A', out='R', frames=('NED', 'ENU'))
-    s, b = triad('quaternion')
-    add('TRIAD[quaternion]', 'fwd', _zf(1, -1), m_x_plus, s, b, cls='B', out='q', frames=('NED', 'ENU'))
+
+        def reused(acc, mag, frame, dip, acc0, mag0, frame0, dip0):
+            # the class docstring's usage: one object, `triad.v1 = ...; triad.v2 = ...` before an estimate
+            t = TRIAD(v1=A(_zf(1, -1)(frame0)), v2=A(m_x_plus(frame0, dip0)), frame=frame0, representation=rep)
+            t.estimate(A(acc0), A(mag0), representation=rep)
+            t.v1 = A(_zf(1, -1)(frame))
+            t.v2 = A(m_x_plus(frame, dip))
+            return t.estimate(A(acc), A(mag), representation=rep)
+        return single, batch, reused
+    s, b, r = triad('rotmat')
+    add('TRIAD[rotmat]', 'fwd', _zf(1, -1), m_x_plus, s, b, cls='A', out='R', frames=('NED', 'ENU'), reused=r)
+    s, b, r = triad('quaternion')
+    add('TRIAD[quaternion]', 'fwd', _zf(1, -1), m_x_plus, s, b, cls='B', out='q', frames=('NED', 'ENU'), reused=r)
 
     # --- Davenport / QUEST
     add('Davenport', 'inv', _Z(1), m_x_plus_ned_only,
